@@ -652,6 +652,10 @@ class Intrinsics:
         P.modular.add(name)
         return True
 
+    def s_obj_id(self, P, o):
+        """identity of an object as an integer (names ghost values attached to an abstract object)"""
+        return id(o)
+
     def s_ambient(self, P):
         """innermost active `with` model object (None outside any `with`)"""
         st = getattr(P, 'with_stack', None)
